@@ -128,7 +128,7 @@ def evaluate(case):
                 prepop[f"{dname}/_static/logo.txt"] = b"logo\n"
                 prepop[f"{dname}/index.rst.tmp"] = b"someone's scratch file\n"
             # unrelated files whose names merely extend the names of generated files
-            for stem in ["index"] + [T.stem_of(n) for n in top_files[:2]]:
+            for stem in ["index"] + [T.stem_of(n) for n in top_files[:2] if len(n) < 200]:
                 for suffix in (".rst.tmp", ".rst~", ".rst.bak", ".rst.new", ".tmp"):
                     prepop[stem + suffix] = b"not generated by cminx\n"
                 prepop["." + stem + ".rst.swp"] = b"swap\n"
